@@ -78,6 +78,9 @@ class Gen:
 
     def op(self, name, *ch):
         self.used.add("op:" + name)
+        if name == "nvl" and self.ops and not self.has_comp(ch[0]):
+            # nvl(<constant expression>, <component expression>) is outside the generated subset
+            return ch[0] if not self.has_comp(ch[1]) else ("op", "nvl", [ch[1], ch[0]])
         return ("op", name, list(ch))
 
     def numeric(self, t, d):
@@ -169,7 +172,11 @@ class Gen:
             return self.op("between", self.expr(t, d - 1), const(rng, t), const(rng, t))
         if r < 0.95:
             t = rng.choice(["Integer", "String"])
-            items = [const(rng, t) for _ in range(rng.randint(1, 3))]
+            items = []
+            for _ in range(rng.randint(1, 3)):
+                c = const(rng, t)
+                if c not in items:          # a VTL set has no duplicates
+                    items.append(c)
             return self.op(rng.choice(["in", "not_in"]), self.expr(t, d - 1), ("set", items))
         return self.op("if", self.cond(d - 1), self.expr("Boolean", d - 1), self.expr("Boolean", d - 1))
 
